@@ -564,8 +564,22 @@ func rewriteLock(path, prop string, all []*Obligation, findings []*Finding) erro
 	if err != nil {
 		return err
 	}
+	oldLocked := lock[prop]
 	lock[prop] = map[string]bool{}
 	delete(lock, prop+"!")
+	defer func() {
+		// never lose a proof silently: an obligation that was locked and no longer is gets reported
+		var lost []string
+		for n := range oldLocked {
+			if !lock[prop][n] {
+				lost = append(lost, n)
+			}
+		}
+		sort.Strings(lost)
+		for _, n := range lost {
+			fmt.Printf("LOCK-LOST property=%s %s\n", prop, n)
+		}
+	}()
 	for _, o := range all {
 		if strings.HasSuffix(o.Label, "!outside-known") {
 			continue
